@@ -30,19 +30,28 @@ def run(chk):
         fn = getattr(mod, kname)
         names = ['tof', 'L1', 'L2', ename]
         dimsof = {'tof': 'time', 'L1': 'length', 'L2': 'length', ename: 'energy'}
-        for combo in itertools.product((F64, F32), repeat=4):
+        # operand shapes: the proofs are element-generic, sound only if the code does not branch on operand shapes -- so the float64
+        # case is repeated with 1-d operands, scalar geometry, and each operand along a dimension of its own
+        variants = [(combo, '', None) for combo in itertools.product((F64, F32), repeat=4)]
+        variants.append(((F64,) * 4, '; shape: all 1-d', lambda n: ('row',)))
+        variants.append(((F64,) * 4, '; shape: scalar geometry and energy, 1-d tof', lambda n: ('tof',) if n == 'tof' else ()))
+        variants.append(((F64,) * 4, '; shape: per-pixel geometry, 2-d tof', lambda n: ('row', 'tof') if n == 'tof' else ('row',)))
+        for nm in names:
+            variants.append(((F64,) * 4, f'; shape: {nm} along its own dim', lambda n, nm=nm: ('own',) if n == nm else ('row',)))
+        for combo, stag, policy in variants:
             dts = dict(zip(names, combo))
-            tag = ','.join(f'{a}:{dts[a]}' for a in names)
+            tag = ','.join(f'{a}:{dts[a]}' for a in names) + stag
 
             def mk():
-                return {a: arg(a, dimsof[a], dtype=dts[a]) for a in names}
+                with kit.dims_policy(policy):
+                    return {a: arg(a, dimsof[a], dtype=dts[a]) for a in names}
 
             a = mk()
             base = [a[n].val > 0 for n in ('L1', 'L2', ename)]  # tof unconstrained (either side of the boundary)
             paths = chk.explore(lambda: fn(**mk()), base=base + kit.CONST_AXIOMS,
                                 catch=(UnitError, DTypeError, DimensionError, ValueError, TypeError))
             pre = f'{MOD}:{kname}'
-            if combo == (F64,) * 4:
+            if combo == (F64,) * 4 and not stag:
                 chk.canary(f'{pre}/requires[{tag}]', base + kit.CONST_AXIOMS)
             for i, p in enumerate(paths):
                 ptag = tag if len(paths) == 1 else f'{tag}/path{i}'
